@@ -67,8 +67,10 @@ func NewHome(base string) *Home {
 	return h
 }
 
-func (h *Home) Personal() string { return filepath.Join(h.Dir, ".config", "cmd-finder", "personal.yml") }
-func (h *Home) History() string  { return filepath.Join(h.Dir, ".config", "wtf", "search_history.json") }
+func (h *Home) Personal() string {
+	return filepath.Join(h.Dir, ".config", "cmd-finder", "personal.yml")
+}
+func (h *Home) History() string { return filepath.Join(h.Dir, ".config", "wtf", "search_history.json") }
 
 // RunCmd runs argv with HOME=h.Dir in h.Cwd, stdin closed.
 func (h *Home) RunCmd(timeout time.Duration, extraEnv []string, argv ...string) CLIResult {
